@@ -172,6 +172,13 @@ def check(pid, tier, seed):
             vac = [l.label for l in tr["lines"] if l.label and l.label.startswith("VAC.")]
             vac = sorted(set(vac))
             failed_vac = set(d.obligation for d in tr["res"]["diags"] if d.kind == "label" and d.obligation.startswith("VAC."))
+            # a resource-limit hit while trying to prove `false` also means `false` was not proved
+            # (the original unit verified, so a function that now fails does so because of its twin clause)
+            if any(d.kind == "rlimit" for d in tr["res"]["diags"]):
+                unproved_fns = {f["function"].split("::")[-1] for f in tr["res"]["functions"] if not f["success"]}
+                for v in vac:
+                    if v.split(".")[-1] in unproved_fns:
+                        failed_vac.add(v)
             if tr["res"]["compile_error"]:
                 undecided.append(f"{u}: twin rejected by Verus")
                 continue
